@@ -448,7 +448,7 @@ func runC06(rc *RunCtx) {
 	os.MkdirAll(dir, 0755)
 	in := filepath.Join(dir, "in.fasta")
 	os.WriteFile(in, []byte(sb.String()), 0644)
-	args := []string{"--max-cpu", fmt.Sprint(p.MaxCPU), "--batch-size", fmt.Sprint(p.BatchSize)}
+	args := p.cpuArgs()
 	args = append(args, o.args()...)
 	args = append(args, "-o", filepath.Join(dir, "out.fasta"), in)
 	knobs := map[string]int{}
@@ -499,7 +499,7 @@ func runC06(rc *RunCtx) {
 		d2 := filepath.Join(dir, "demerge")
 		os.MkdirAll(d2, 0755)
 		dm := rc.RunCmd(CmdSpec{Name: "obidemerge", Dir: d2, PoolPolicy: p.Pool, YieldDensity: p.Yield, StderrNull: p.ErrNull,
-			Args: []string{"--max-cpu", fmt.Sprint(p.MaxCPU), "--batch-size", fmt.Sprint(p.BatchSize), "-d", "sample", "-o", filepath.Join(d2, "out.fasta"), filepath.Join(dir, "out.fasta")}})
+			Args: append(p.cpuArgs(), "-d", "sample", "-o", filepath.Join(d2, "out.fasta"), filepath.Join(dir, "out.fasta"))})
 		if !rc.cmdMustSucceed(dm, "C06/demerge", "obidemerge -d sample on the output of obiuniq") {
 			return
 		}
